@@ -48,6 +48,13 @@ class C19(Prop):
             for rep in range(3):
                 f = gen.struct_case(rng, src, ["prepare:opt", "exec:0", "exec:0"], objs=[dollar])
                 out.append(Case("run", f, "dollar-keys", group="D%d" % gid, note=src))
+        # printed forms never show memory addresses (known finding D46: the %p verb of sprintf/printf does)
+        for src in ['return sprintf("%p", [1, 2]);', 'return sprintf("%p", {"a": 1});', 'x = [1]; return sprintf("%v %p", x, x);', 'return sprintf("%p", "s");']:
+            gid += 1
+            for rep in range(3):
+                c = Case("run", gen.struct_case(rng, src, ["prepare:opt", "exec:0", "prepare:opt", "exec:0"], objs=["N"]), "pointer-verb", group="D%d" % gid, note=src)
+                c.tags.add("pointer-verb")
+                out.append(c)
         for src in scripts:
             gid += 1
             objs = [gen.enc_struct(gen.rand_object(rng))]
@@ -147,5 +154,8 @@ class C19(Prop):
                     diff = [k for k in set(a) | set(b) if a.get(k) != b.get(k)]
                     viol.append((c, "a separate process gives a different %s: %s vs %s" % (diff[0], a.get(diff[0]), b.get(diff[0]))))
         return viol, {"processes": nproc + 1}
+
+    def in_class(self, klass, case):
+        return klass == "pointer-verb" and "pointer-verb" in case.tags
 
 PROP = C19()
